@@ -8,11 +8,11 @@ import types
 from fractions import Fraction
 
 from harness import core, fr
-from harness.core import gq, gz, gnat, gbool, glist
+from harness.core import gq, gz, gnat, gbool, glist, gstr
 
 HEADER = """From Coq Require Import ZArith List Bool String.
 From FrameModel Require Import Num.QcTac PB.Expr PB.Cnf PB.Amo PB.Robdd PB.Codify PB.Sat
-  RectSearch.Coords RectSearch.Names RectSearch.Encode RectSearch.Shapes Cases.CmpC08.
+  RectSearch.Coords RectSearch.Names RectSearch.Encode RectSearch.Shapes RectSearch.SelectBox Cases.CmpC08.
 Import ListNotations.
 Local Open Scope nat_scope."""
 
@@ -81,6 +81,15 @@ def gen_axis(rng, n, style):
     return xs
 
 
+def gen_axis_decimal(rng, n):
+    """n cells -> n + 1 increasing decimal (not binary) coordinates, origin >= 0 (an Allocation lives in the positive quadrant)."""
+    xs = [Fraction(rng.choice([0, 0, 0, 1, 3, 17]), 10)]
+    step = rng.choice([None, None, Fraction(1, 10), Fraction(3, 10)])        # uniform or not
+    for _ in range(n):
+        xs.append(xs[-1] + (step or Fraction(rng.choice([1, 1, 2, 3, 7, 11, 5, 13]), rng.choice([10, 10, 100, 20]))))
+    return xs
+
+
 STYLES = ["unit0", "int0", "frac0", "shift-int", "shift-frac", "unit0", "int0", "frac0", "shift-int", "shift-frac",
           "tiny"]
 # the first 10 are the "small" sizes (every other case): half of them a single row or column
@@ -112,10 +121,33 @@ def cell_costs(case):
     return [r * s - a for s, a in coefs(case)]
 
 
-def gen_case(rng, small=False):
+def make_alloc(rng, case, decimal):
+    """The case's grid is handed to the tool as an allocation (rect_io.get_alloc + select_box): per cell the ratios of
+    the modules; M is the selected one (absent = ratio 0), N a bystander."""
+    mods = []
+    absent = all(p == 0 for p in case["occ"])     # the Allocation constructor divides by a listed module's total area
+    for p in case["occ"]:
+        entry = [] if (p == 0 and (absent or rng.random() < 0.6)) else [["M", p]]
+        if rng.random() < 0.3:
+            entry.insert(rng.randrange(len(entry) + 1), ["N", Fraction(rng.choice([1, 2]), 4)])
+        mods.append(entry)
+    case["alloc"] = {"decimal": bool(decimal), "mods": mods}
+    if decimal:              # the cost arithmetic is binary64 on non-dyadic numbers: only the shape set is judged
+        case["bound"] = -10 ** 9
+
+
+def gen_case(rng, small=False, alloc=None):
+    """alloc: None (the grid is given to solve directly), False (through an allocation, dyadic numbers),
+    True (through an allocation with decimal coordinates: direct oracle only)."""
     nx, ny = rng.choice(SIZES[:10] if small else SIZES)
-    xs = gen_axis(rng, nx, rng.choice(STYLES))
-    ys = gen_axis(rng, ny, rng.choice(STYLES))
+    if alloc:
+        xs, ys = gen_axis_decimal(rng, nx), gen_axis_decimal(rng, ny)
+    else:
+        while True:
+            xs = gen_axis(rng, nx, rng.choice(STYLES))
+            ys = gen_axis(rng, ny, rng.choice(STYLES))
+            if alloc is None or (xs[0] >= 0 and ys[0] >= 0):
+                break
     n = nx * ny
     order = list(range(n))
     m = rng.random()
@@ -126,6 +158,8 @@ def gen_case(rng, small=False):
     cells = grid_cells(xs, ys, order)
     kind = "grid"
     m = rng.random()
+    if alloc is not None:
+        m = 1.0
     if m < 0.06 and n >= 2:            # a cell missing: not a full grid (correspondence only)
         del cells[rng.randrange(len(cells))]
         kind = "partial"
@@ -143,6 +177,8 @@ def gen_case(rng, small=False):
         occ = [Fraction(rng.choice([0, 1, 1])) for _ in cells]
     else:
         occ = [rng.choice(OCC) for _ in cells]
+    if alloc is not None:
+        occ = [min(p, Fraction(1)) for p in occ]          # an Allocation keeps ratios in [0, 1]
     case = {"kind": kind, "cells": cells, "occ": occ, "k": rng.choice([1, 2, 2, 3, 3]), "factor": factor,
             "ratio": rng.choice([Fraction(2)] * 8 + [Fraction(3)] * 4 + [Fraction(5, 2)] * 4 + [Fraction(3, 2)] * 3 +
                                 [Fraction(1)]), "bound": 0,
@@ -159,6 +195,8 @@ def gen_case(rng, small=False):
         case["bound"] = maxpos + rng.choice([0, 1])    # at most the best conceivable / unsatisfiable
     else:
         case["bound"] = rng.randint(minneg - 1, 0)
+    if alloc is not None:
+        make_alloc(rng, case, alloc)
     if rng.random() < 0.15:
         case["history"] = {"kind": "grid", "cells": grid_cells([Fraction(0), Fraction(1), Fraction(3)],
                                                                [Fraction(0), Fraction(2)], [0, 1]),
@@ -170,9 +208,43 @@ def gen_case(rng, small=False):
 # --------------------------------------------------------------------------
 # running the implementation
 # --------------------------------------------------------------------------
+def dec(q):
+    """Exact decimal literal of a Fraction whose denominator is 2^a 5^b."""
+    import decimal
+    with decimal.localcontext() as ctx:
+        ctx.prec = 120
+        d = decimal.Decimal(q.numerator) / decimal.Decimal(q.denominator)
+        assert Fraction(d) == q, q
+        return format(d, "f")
+
+
+def alloc_text(case):
+    """The allocation file of the case's grid: one rectangle [xc, yc, w, h] per cell with the ratios of its modules."""
+    rows = []
+    for (x1, y1, x2, y2), mods in zip(case["cells"], case["alloc"]["mods"]):
+        ms = ", ".join(f"{nm}: {dec(Fraction(r))}" for nm, r in mods)
+        rows.append(f"  [[{dec((x1 + x2) / 2)}, {dec((y1 + y2) / 2)}, {dec(x2 - x1)}, {dec(y2 - y1)}], {{{ms}}}]")
+    return "[\n" + ",\n".join(rows) + "\n]\n"
+
+
+def through_allocation(case):
+    """rect_io.get_alloc + select_box on the allocation of the case's grid: (ifile, input_problem)."""
+    import tools.rect.rect_io as IO
+    from frame.geometry.geometry import Rectangle
+    Rectangle.undefine_epsilon()
+    ifile = IO.get_alloc(alloc_text(case))
+    inp, _ = IO.select_box("M", ifile)
+    Rectangle.undefine_epsilon()
+    return ifile, [tuple(float(v) for v in c) for c in inp]
+
+
 def make_carrier(case):
     import tools.rect.rect as R
     cells = [(float(c[0]), float(c[1]), float(c[2]), float(c[3]), float(p)) for c, p in zip(case["cells"], case["occ"])]
+    via = None
+    if case.get("alloc"):
+        via = through_allocation(case)
+        cells = via[1]
     car = types.SimpleNamespace(input_problem=cells, selbox="M", factor=case["factor"], inibox=(0, 0, 0, 0, 0),
                                 blocks=[], prev_x={}, prev_y={}, next_x={}, next_y={}, xcoords=[], ycoords=[],
                                 theoreticalBestArea=0.0, gm=None)
@@ -183,6 +255,9 @@ def make_carrier(case):
     xs = [c[0] for c in cells] + [c[2] for c in cells]
     ys = [c[1] for c in cells] + [c[3] for c in cells]
     ifile = {"Width": max(xs) - min(xs), "Height": max(ys) - min(ys), "Rectangles": []}
+    if via:
+        ifile = via[0]
+        car.via = via
     return car, ifile
 
 
@@ -269,6 +344,11 @@ def run_impl(case):
            "prevy": [[k, v] for k, v in car.prev_y.items()], "nexty": [[k, v] for k, v in car.next_y.items()],
            "blocks": list(car.blocks), "keyerror": ret == "KeyError", "zerodiv": ret == "ZeroDivisionError",
            "tba": int(car.theoreticalBestArea)}
+    if case.get("alloc"):
+        ifile, selected = car.via
+        obs["selected"] = [list(c) for c in selected]
+        obs["ifile"] = [[[float(v) for v in b[nm][0]["dim"]], [[k, float(v)] for m in (b[nm][1]["mod"] or []) for k, v in m.items()]]
+                        for b in ifile["Rectangles"] for nm in b]
     # the store of the history: its decision variables are "b_<n>" names as well
     obs["mem0"] = mem_nodes(mem0_raw, nmap)
     if obs["keyerror"]:
@@ -350,7 +430,30 @@ def gmem(nodes):
     return glist(out)
 
 
+def effective(case, obs):
+    """The case whose cells are what solve was really given: select_box's output for a case that goes through an
+    allocation (exact rationals of the returned floats)."""
+    if not case.get("alloc"):
+        return case
+    sel = obs["selected"]
+    return dict(case, cells=[[Fraction(v) for v in c[:4]] for c in sel], occ=[Fraction(c[4]) for c in sel])
+
+
+def garects(obs):
+    return glist([f"(mkA {gq(d[0])} {gq(d[1])} {gq(d[2])} {gq(d[3])} "
+                  f"{glist(['(' + gstr(k) + ', ' + gq(v) + ')' for k, v in mods])})" for d, mods in obs["ifile"]])
+
+
 def to_coq(case, obs):
+    if case.get("alloc"):
+        if case["alloc"]["decimal"]:
+            return "true"      # decimal coordinates: binary64 rounding is not modelled - judged by the direct oracle only
+        pre = f"c08_select_check {gstr('M')} {garects(obs)} {gproblem(effective(case, obs))}"
+        return f"({pre}) && ({to_coq_solve(effective(case, obs), obs)})"
+    return to_coq_solve(case, obs)
+
+
+def to_coq_solve(case, obs):
     if obs.get("zerodiv"):
         return "false"     # the model (repaired code) returns a result on every input; solve raised ZeroDivisionError
     o = (f"(mkObs8 {glist([gq(x) for x in obs['xs']])} {glist([gq(x) for x in obs['ys']])} "
@@ -466,7 +569,47 @@ def show_sigma(sig):
     return " | ".join("".join(str(int(x)) for x in row) for row in sig)
 
 
+def oracle_select(case, obs):
+    """The grid handed to the tool as an allocation must reach the search as that grid: the same cells (in the same
+    order), every column / row line one coordinate shared exactly by the cells on both sides, M's ratio per cell."""
+    g = grid_index(case)
+    if g is None:
+        return None
+    xs, ys, pos = g
+    decimal = case["alloc"]["decimal"]
+    sel = obs["selected"]
+    if len(sel) != len(case["cells"]):
+        return f"select: select_box returns {len(sel)} cells for an allocation of {len(case['cells'])} rectangles"
+    for b, (c, want, mods) in enumerate(zip(sel, case["cells"], case["alloc"]["mods"])):
+        for got, w in zip(c[:4], want):
+            tol = Fraction(1, 10 ** 8) * max(abs(w), 1) if decimal else 0
+            if abs(Fraction(got) - w) > tol:
+                return f"select: cell {b} comes out as {c[:4]} instead of {[float(v) for v in want]}"
+        ratio = dict((nm, r) for nm, r in mods).get("M", Fraction(0))
+        if Fraction(c[4]) != Fraction(float(ratio)):
+            return f"select: cell {b} has occupancy {c[4]} instead of the module's ratio {float(ratio)}"
+    eff = effective(case, obs)
+    ge = grid_index(eff)
+    exs = sorted({c[0] for c in eff["cells"]} | {c[2] for c in eff["cells"]})
+    eys = sorted({c[1] for c in eff["cells"]} | {c[3] for c in eff["cells"]})
+    if ge is None or len(exs) != len(xs) or len(eys) != len(ys):
+        near = [(float(a), float(b)) for l in (exs, eys) for a, b in zip(l, l[1:]) if b - a < Fraction(1, 10 ** 8) * max(abs(b), 1)]
+        return (f"select: the {len(xs) - 1} x {len(ys) - 1} grid of the allocation reaches the search with {len(exs)} distinct x "
+                f"and {len(eys)} distinct y coordinates instead of {len(xs)} and {len(ys)}: adjacent cells do not share "
+                f"their border coordinate exactly (e.g. {near[:2]}), so the cells are not a grid for definecoords")
+    return None
+
+
 def oracle(case, obs):
+    if case.get("alloc"):
+        why = oracle_select(case, obs)
+        if why:
+            return why
+        return oracle_solve(effective(case, obs), obs, decimal=case["alloc"]["decimal"])
+    return oracle_solve(case, obs)
+
+
+def oracle_solve(case, obs, decimal=False):
     if case["kind"] != "grid":
         return None
     g = grid_index(case)
@@ -519,9 +662,9 @@ def oracle(case, obs):
         if isinstance(rs, str):
             return f"solve: the model behind the returned rectangles [{show_sigma(sig)}] is not a shape: {rs}"
         cost = cost_of_sigma(sig, cc)
-        if cost < bound:
+        if cost < bound and not decimal:
             return f"solve: returned shape [{show_sigma(sig)}] has cost {cost} below the bound {bound}"
-        if obs["ret"] != [cost + 1, 1]:
+        if obs["ret"] != [cost + 1, 1] and not decimal:      # decimal: the code's binary64 area products may truncate differently
             return f"solve: returned cost pair {obs['ret']} but the shape's cost is {cost} (expected [{cost + 1}, 1])"
         want = [[xs[r[0]], ys[r[2]], xs[r[1] + 1], ys[r[3] + 1]] for r in rs]
         got = [None if r is None else [Fraction(v) for v in r] for r in obs["rects"]]
@@ -552,6 +695,8 @@ def failure_key(case, why):
     head = (why or "").split(":")[0]
     if "ZeroDivisionError" in (why or ""):
         return "C08/quality-zero-division"
+    if head == "select":
+        return "C08/select-box-shared-borders"
     if head in ("models", "solve") and case.get("kind") == "grid" and not origin_zero_integral(case) \
             and case.get("k", 1) >= 2:
         return "C08/border-tests"          # F10: only grids with a shifted origin or a fractional extent
@@ -565,16 +710,42 @@ def rebuild(case, xs, ys):
     nx, ny = len(xs) - 1, len(ys) - 1
     cells = grid_cells(xs, ys, list(range(nx * ny)))
     p = Fraction(0) if all(q == 0 for q in case["occ"]) else Fraction(1)     # keep "the module is absent"
-    return dict(case, cells=cells, occ=[p] * len(cells), history=None)
+    c = dict(case, cells=cells, occ=[p] * len(cells), history=None)
+    if case.get("alloc"):
+        c["alloc"] = dict(case["alloc"], mods=[[["M", p]] for _ in cells])
+    return c
+
+
+_KEY = {}
+
+
+def _key_of(case):
+    """The failure class of a case (None if it does not fail): shrinking must not drift into another finding."""
+    h = repr(fr.tojson(case))
+    if h not in _KEY:
+        try:
+            obs = run_impl(case)
+            why = oracle(case, obs)
+        except Exception as e:
+            why = f"implementation raised {type(e).__name__}: {e}"
+        _KEY[h] = failure_key(case, why) if why else None
+    return _KEY[h]
 
 
 def shrink(case):
+    want = _key_of(case)
+    for c in shrink_all(case):
+        if want is None or _key_of(c) == want:
+            yield c
+
+
+def shrink_all(case):
     if case.get("history"):
         yield dict(case, history=None)
     g = grid_index(case) if case["kind"] == "grid" else None
     cc = cell_costs(case)
     low = sum(c for c in cc if c < 0) - 5
-    if case["bound"] != low:
+    if case["bound"] != low and not (case.get("alloc") and case["alloc"]["decimal"]):
         yield dict(case, bound=low)
     if g:
         xs, ys, pos = g
@@ -604,7 +775,8 @@ def nontrivial(case):
 
 def dist_key(case):
     n = len(case["cells"])
-    return f"{case['kind']}/k{case['k']}/" + ("<=4" if n <= 4 else "<=9" if n <= 9 else "<=16" if n <= 16 else "<=25")
+    kind = case["kind"] if not case.get("alloc") else ("alloc-decimal" if case["alloc"]["decimal"] else "alloc-dyadic")
+    return f"{kind}/k{case['k']}/" + ("<=4" if n <= 4 else "<=9" if n <= 9 else "<=16" if n <= 16 else "<=25")
 
 
 def run(ctx, out, replay=None):
@@ -622,7 +794,10 @@ def run(ctx, out, replay=None):
         cases.append(fr.unjson(replay["case"]))
     cases += fr.load_corpus("C08")
     while len(cases) < n:
-        cases.append(gen_case(ctx.rng, small=(len(cases) % 2 == 0)))
+        j = len(cases)
+        # every 8th case reaches the search through an allocation (get_alloc + select_box), alternately with
+        # dyadic numbers (compared with the model exactly) and decimal ones (direct oracle)
+        cases.append(gen_case(ctx.rng, small=(j % 2 == 0), alloc=(None if j % 8 != 5 else (j % 16 == 5))))
     stats = {"sat": 0, "unsat": 0, "keyerror": 0, "zerodiv": 0, "zero_quality_denominator": 0, "enumerated_instances": 0, "models_enumerated": 0,
              "max_clauses": 0, "with_diagram": 0}
 
